@@ -1095,7 +1095,7 @@ def plan(tier, seed):
         specs += [{'kind': 'random', 'seed': seed * 1000 + i, 'n': 40} for i in range(16)]
     else:
         specs += [{'kind': 'exhaustive', 'part': k, 'parts': 16} for k in range(16)]
-        specs += [{'kind': 'random', 'seed': seed * 100000 + i, 'n': 2500} for i in range(64)]
+        specs += [{'kind': 'random', 'seed': seed * 100000 + i, 'n': 1800} for i in range(64)]
     return specs
 
 
